@@ -284,6 +284,27 @@ func init() {
 			{"tab whitespace", seq(set(rdnAttr(oOID, 0x0c, []byte("\tExample\n"))))},
 			{"empty value", seq(set(rdnAttr(oOID, 0x0c, []byte(""))))},
 		}
+		// the structure of the name itself: RDNs with no attribute at all, with two and with three attributes, in every
+		// arrangement of up to three RDNs (the number of attributes and the number of RDNs are different things)
+		{
+			a1 := rdnAttr(cOID, 0x13, []byte("US"))
+			a2 := rdnAttr(oOID, 0x0c, []byte("Example"))
+			a3 := rdnAttr(cnOID, 0x0c, []byte("Example Root"))
+			kinds := map[string][]byte{"empty": set(), "one": set(a1), "two": set(a2, a3), "three": set(a1, a2, a3)}
+			names := []string{"empty", "one", "two", "three"}
+			for _, x := range names {
+				dns = append(dns, dnSpec{"RDN structure [" + x + "]", seq(kinds[x])})
+				for _, y := range names {
+					dns = append(dns, dnSpec{"RDN structure [" + x + " " + y + "]", seq(kinds[x], kinds[y])})
+					for _, z := range names {
+						if x == "empty" || y == "empty" || z == "empty" {
+							dns = append(dns, dnSpec{"RDN structure [" + x + " " + y + " " + z + "]", seq(kinds[x], kinds[y], kinds[z])})
+						}
+					}
+				}
+			}
+			dns = append(dns, dnSpec{"RDN structure: no RDN at all", seq()})
+		}
 		for _, d := range dns {
 			tmpl := leafTemplate()
 			tmpl.RawSubject = d.raw
